@@ -642,6 +642,10 @@ func c07(c *an.Ctx) {
 		ruleParseBinlogRow(c, o)
 	})
 
+	c.Check("R-PROV", "the in-memory tester sees each value converted by the column Valuer exactly once (MakeTester keeps the filter's own values): a filter on a json / binary / string tagged column still matches its rows", 3, func(o *an.O) {
+		ruleValuerOnce(c, o)
+	})
+
 	c.Check("R-SHAPE", "Tester.Test compares every filter column (false on first mismatch, true only after the loop)", 2, func(o *an.O) {
 		tt := c.NeedFunc(sg, "(*tester).Test")
 		calls := an.Calls(tt, an.Mod(sg, "", "driverValuesEqual"))
@@ -698,6 +702,10 @@ func c10(c *an.Ctx) {
 		an.Need(false, "batchFetch.Many closure in NewDB")
 		return nil
 	}
+
+	c.Check("R-PROV", "Table.driverValues passes every value through the column Valuer (no fast path): the batched statement and matcher see the same driver values a single query would", 3, func(o *an.O) {
+		ruleValuerOnce(c, o)
+	})
 
 	c.Check("R-NORM", "batched select: filters and fetched rows are normalised with the column Valuer before the statement is built and before matching", 4, func(o *an.O) {
 		fn := many()
@@ -1109,7 +1117,6 @@ func itemsParam(fn *ssa.Function) *ssa.Parameter {
 	}
 	return fn.Params[len(fn.Params)-1]
 }
-
 
 func keysOf(m map[string]bool) []string {
 	var out []string
